@@ -105,6 +105,7 @@ fn main() {
                     let toks: Vec<&str> = body.split_whitespace().collect();
                     match toks[0] {
                         "parse" => { let s = codec::unhex(toks.get(2).unwrap_or(&"")).unwrap_or_default(); suite_parse::emit_parse(&mut out, &cfg, toks[1], &s, None); },
+                        "contexts" => { let s = codec::unhex(toks.get(1).unwrap_or(&"")).unwrap_or_default(); suite_parse::emit_context(&mut out, &cfg, &s); },
                         _ => { eprintln!("replay of this case kind re-runs the generator; use the seed"); },
                     }
                 } else {
